@@ -46,10 +46,12 @@ import (
 	govtypes "github.com/cosmos/cosmos-sdk/x/gov/types"
 	stakingtypes "github.com/cosmos/cosmos-sdk/x/staking/types"
 	"github.com/ethereum/go-ethereum/common"
+	"github.com/ethereum/go-ethereum/common/hexutil"
 	"github.com/evmos/evmos/v16/encoding"
 	evmtypes "github.com/evmos/evmos/v16/x/evm/types"
 
 	exocoreapp "github.com/ExocoreNetwork/exocore/app"
+	assetsprecompile "github.com/ExocoreNetwork/exocore/precompiles/assets"
 	exotx "github.com/ExocoreNetwork/exocore/testutil/tx"
 	"github.com/ExocoreNetwork/exocore/utils"
 	assetskeeper "github.com/ExocoreNetwork/exocore/x/assets/keeper"
@@ -374,7 +376,13 @@ func runC08Worker(a *Args) error {
 	}
 	for _, blk := range script {
 		bo := c08BlockObs{Height: env.Header.Height}
-		for _, op := range blk.Ops {
+		if w.localTraffic {
+			w.localOnlyTraffic(a.Seed)
+		}
+		for i, op := range blk.Ops {
+			if w.localTraffic && i == len(blk.Ops)/2 {
+				w.localOnlyTraffic(a.Seed + 1)
+			}
 			bo.Txs = append(bo.Txs, w.exec(op))
 		}
 		res := env.App.EndBlock(abci.RequestEndBlock{Height: env.Header.Height})
@@ -427,6 +435,145 @@ func runC08Worker(a *Args) error {
 	rb, _ := json.Marshal(w.restarts)
 	_ = os.WriteFile(filepath.Join(a.Out, "restarts.json"), rb, 0o644)
 	return os.WriteFile(filepath.Join(a.Out, "obs.json"), b, 0o644)
+}
+
+// localOnlyTraffic: requests that ONLY this process serves and that are never delivered in a block — what a public
+// RPC node sees all day: gas estimates / eth_call of gateway functions, simulations of governance and price
+// messages.  All of it runs on query / check contexts whose store writes are thrown away; none of it may leave a
+// trace in what the node computes for the next blocks.  Which requests are made is drawn from (seed, height).
+func (w *c08World) localOnlyTraffic(seed int64) {
+	env := w.env
+	r := rand.New(rand.NewSource(seed*7919 + env.Header.Height))
+	safe := func(f func()) {
+		defer func() {
+			if rec := recover(); rec != nil && os.Getenv("C08_DEBUG") != "" {
+				fmt.Fprintf(os.Stderr, "h=%d local-only request panicked: %v\n", env.Header.Height, rec)
+			}
+		}()
+		f()
+		w.nLocal++
+	}
+	queryCtx := func() sdk.Context {
+		c, _ := env.App.BaseApp.NewContext(true, env.Header).CacheContext()
+		return c.WithGasMeter(sdk.NewInfiniteGasMeter()).WithBlockGasMeter(sdk.NewInfiniteGasMeter())
+	}
+	gov := authtypes.NewModuleAddress(govtypes.ModuleName).String()
+	for n := 0; n < 2; n++ {
+		switch r.Intn(5) {
+		case 0: // eth_call / eth_estimateGas of the gateway's registerToken for a token name + chain the oracle knows
+			safe(func() { w.ethCallAssets(queryCtx(), "registerToken", r) })
+		case 1: // … and of updateToken
+			safe(func() { w.ethCallAssets(queryCtx(), "updateToken", r) })
+		case 2: // simulation of an oracle MsgUpdateParams (as runTx does in simulate mode: message executed on the check state)
+			safe(func() {
+				cur := env.App.OracleKeeper.GetParams(queryCtx())
+				upd := oracletypes.Params{MaxSizePrices: int32(20 + r.Intn(30))}
+				if r.Intn(2) == 0 {
+					nt := len(cur.Tokens)
+					upd.Tokens = []*oracletypes.Token{{Name: fmt.Sprintf("C08L%d", nt), ChainID: 1, ContractAddress: "0x", Decimal: 8, Active: true}}
+					upd.TokenFeeders = []*oracletypes.TokenFeeder{{TokenID: uint64(nt), RuleID: 1, StartRoundID: 1,
+						StartBaseBlock: uint64(env.Header.Height) + 2, Interval: 6}}
+				}
+				msg := &oracletypes.MsgUpdateParams{Authority: gov, Params: upd}
+				if os.Getenv("C08_DIRECT_MSG") != "" {
+					_, _ = oraclekeeper.NewMsgServerImpl(env.App.OracleKeeper).UpdateParams(sdk.WrapSDKContext(queryCtx()), msg)
+					return
+				}
+				w.simulateMsgs(msg)
+			})
+		case 3: // simulation of a dogfood MsgUpdateParams
+			safe(func() {
+				c := queryCtx()
+				p := env.App.StakingKeeper.GetDogfoodParams(c)
+				p.MaxValidators = uint32(1 + r.Intn(7))
+				w.simulateMsgs(&dogfoodtypes.MsgUpdateParams{Authority: gov, Params: p})
+			})
+		case 4: // Simulate + CheckTx of create-price transactions (both validators, any feeder) that no block will contain
+			for v := 0; v < 2; v++ {
+				v := v
+				safe(func() {
+					tx := w.priceTx(c08Op{Kind: "price", A: v, B: 1 + r.Intn(8), Amt: 7 + int64(r.Intn(3))})
+					if tx == nil {
+						return
+					}
+					bz, err := w.txCfg.TxEncoder()(tx)
+					if err != nil {
+						return
+					}
+					_, _, _ = env.App.Simulate(bz)
+					_ = env.App.CheckTx(abci.RequestCheckTx{Tx: bz, Type: abci.CheckTxType_New})
+				})
+			}
+		}
+	}
+}
+
+// simulateMsgs sends the messages through BaseApp.Simulate in a transaction whose signer is whoever the messages
+// name (here: the governance authority): a simulation request carries no usable signature, and none is verified.
+func (w *c08World) simulateMsgs(msgs ...sdk.Msg) {
+	tb := w.txCfg.NewTxBuilder()
+	tb.SetGasLimit(2_000_000)
+	tb.SetFeeAmount(sdk.Coins{{Denom: utils.BaseDenom, Amount: sdkmath.NewInt(2_000_000_000_000_000)}})
+	if err := tb.SetMsgs(msgs...); err != nil {
+		return
+	}
+	mode := w.txCfg.SignModeHandler().DefaultMode()
+	_ = tb.SetSignatures(signing.SignatureV2{PubKey: w.env.AccPrivs[0].PubKey(), Data: &signing.SingleSignatureData{SignMode: mode}, Sequence: 0})
+	bz, err := w.txCfg.TxEncoder()(tb.GetTx())
+	if err != nil {
+		return
+	}
+	_, res, err := w.env.App.Simulate(bz)
+	if os.Getenv("C08_DEBUG") != "" {
+		fmt.Fprintf(os.Stderr, "h=%d simulate %T: err=%v res=%v\n", w.env.Header.Height, msgs[0], err, res != nil)
+	}
+}
+
+// ethCallAssets runs a call of the assets precompile through the EVM query path (EvmKeeper.EthCall, nothing committed),
+// sent "from" the configured gateway address as an eth_call may claim.
+func (w *c08World) ethCallAssets(ctx sdk.Context, method string, r *rand.Rand) {
+	env := w.env
+	pc, err := assetsprecompile.NewPrecompile(env.App.AssetsKeeper, env.App.AuthzKeeper)
+	if err != nil {
+		return
+	}
+	ap, err := env.App.AssetsKeeper.GetParams(ctx)
+	if err != nil {
+		return
+	}
+	oparams := env.App.OracleKeeper.GetParams(ctx)
+	tok := oparams.Tokens[1+r.Intn(2)]
+	var data []byte
+	switch method {
+	case "registerToken":
+		addr := make([]byte, 32)
+		copy(addr, seedBytes("c08phantom", r.Intn(4))[:20])
+		data, err = pc.ABI.Pack("registerToken", uint32(101), addr, uint8(18), "Phantom", "phantom token of a simulated call",
+			fmt.Sprintf("%s,%s,%d", tok.Name, oparams.Chains[tok.ChainID].Name, tok.Decimal))
+	default:
+		addr := make([]byte, 32)
+		copy(addr, common.HexToAddress(w.assets[r.Intn(len(w.assets))]).Bytes())
+		data, err = pc.ABI.Pack("updateToken", uint32(101), addr, fmt.Sprintf("meta %d", r.Intn(100)))
+	}
+	if err != nil {
+		if os.Getenv("C08_DEBUG") != "" {
+			fmt.Fprintf(os.Stderr, "pack %s: %v\n", method, err)
+		}
+		return
+	}
+	from := common.HexToAddress(ap.ExocoreLzAppAddress)
+	to := pc.Address()
+	hd := hexutil.Bytes(data)
+	gas := hexutil.Uint64(3_000_000)
+	args, _ := json.Marshal(evmtypes.TransactionArgs{From: &from, To: &to, Data: &hd, Gas: &gas})
+	res, err := env.App.EvmKeeper.EthCall(sdk.WrapSDKContext(ctx), &evmtypes.EthCallRequest{Args: args, GasCap: 25_000_000, ChainId: env.App.EvmKeeper.ChainID().Int64()})
+	if os.Getenv("C08_DEBUG") != "" {
+		if err != nil {
+			fmt.Fprintf(os.Stderr, "h=%d ethcall %s: error %v\n", env.Header.Height, method, err)
+		} else {
+			fmt.Fprintf(os.Stderr, "h=%d ethcall %s: vmerror=%q ret=%x\n", env.Header.Height, method, res.VmError, res.Ret)
+		}
+	}
 }
 
 // keeperOp runs f on a cache of the DeliverTx state and commits it only on success (what a transaction does).
@@ -532,6 +679,43 @@ func (w *c08World) oracleTx(val int, msg *oracletypes.MsgCreatePrice) (sdk.Tx, e
 	return tb.GetTx(), nil
 }
 
+// priceTx builds the signed create-price transaction of validator op.A for feeder op.B in the round that is current
+// at this height (nil when the feeder does not exist / has not started)
+func (w *c08World) priceTx(op c08Op) sdk.Tx {
+	env := w.env
+	params := env.App.OracleKeeper.GetParams(env.Ctx)
+	if op.B >= len(params.TokenFeeders) {
+		return nil
+	}
+	fd := params.TokenFeeders[op.B]
+	h := uint64(env.Header.Height)
+	prevH := h - 1
+	if prevH < fd.StartBaseBlock {
+		return nil
+	}
+	based := prevH - (prevH-fd.StartBaseBlock)%fd.Interval
+	consAddr := env.ConsKeys[op.A].ToConsAddr()
+	nonce := int32(1)
+	if n, found := env.App.OracleKeeper.GetNonce(env.Ctx, consAddr.String()); found {
+		for _, x := range n.NonceList {
+			if x.FeederID == uint64(op.B) {
+				nonce = int32(x.Value) + 1
+			}
+		}
+	}
+	dec := params.Tokens[fd.TokenID].Decimal
+	msg := oracletypes.NewMsgCreatePrice(sdk.AccAddress(consAddr).String(), uint64(op.B), []*oracletypes.PriceSource{{
+		SourceID: 1,
+		Prices: []*oracletypes.PriceTimeDetID{{Price: strconv.FormatInt(op.Amt, 10), Decimal: dec,
+			Timestamp: env.Header.Time.UTC().Format("2006-01-02 15:04:05"), DetID: strconv.FormatUint(based, 10)}},
+	}}, based, nonce)
+	tx, err := w.oracleTx(op.A, msg)
+	if err != nil {
+		return nil
+	}
+	return tx
+}
+
 func (w *c08World) operatorAddr(i int) sdk.AccAddress {
 	if i < len(w.env.Operators) {
 		return w.env.Operators[i]
@@ -587,35 +771,9 @@ func (w *c08World) exec(op c08Op) c08TxObs {
 		}
 		return w.deliver(tx)
 	case "price":
-		params := env.App.OracleKeeper.GetParams(env.Ctx)
-		if op.B >= len(params.TokenFeeders) {
+		tx := w.priceTx(op)
+		if tx == nil {
 			return c08TxObs{Code: 97}
-		}
-		fd := params.TokenFeeders[op.B]
-		h := uint64(env.Header.Height)
-		prevH := h - 1
-		if prevH < fd.StartBaseBlock {
-			return c08TxObs{Code: 97}
-		}
-		based := prevH - (prevH-fd.StartBaseBlock)%fd.Interval
-		consAddr := env.ConsKeys[op.A].ToConsAddr()
-		nonce := int32(1)
-		if n, found := env.App.OracleKeeper.GetNonce(env.Ctx, consAddr.String()); found {
-			for _, x := range n.NonceList {
-				if x.FeederID == uint64(op.B) {
-					nonce = int32(x.Value) + 1
-				}
-			}
-		}
-		dec := params.Tokens[fd.TokenID].Decimal
-		msg := oracletypes.NewMsgCreatePrice(sdk.AccAddress(consAddr).String(), uint64(op.B), []*oracletypes.PriceSource{{
-			SourceID: 1,
-			Prices: []*oracletypes.PriceTimeDetID{{Price: strconv.FormatInt(op.Amt, 10), Decimal: dec,
-				Timestamp: env.Header.Time.UTC().Format("2006-01-02 15:04:05"), DetID: strconv.FormatUint(based, 10)}},
-		}}, based, nonce)
-		tx, err := w.oracleTx(op.A, msg)
-		if err != nil {
-			return c08TxObs{Code: 98}
 		}
 		return w.deliver(tx)
 	case "deposit":
@@ -864,7 +1022,7 @@ func runC08(a *Args) error {
 	}
 	for ci := 0; ci < a.N+len(directed); ci++ {
 		cs := c08Case{Seed: r.Int63n(1 << 40), Blocks: blocks, Procs: procs, NT: true,
-			Local: "process 1 serves Simulate + CheckTx for every signed tx before its DeliverTx; the other processes do not"}
+			Local: "process 1 serves Simulate + CheckTx for every signed tx before its DeliverTx, and 4 requests per block that are never delivered (eth_call of the gateway's registerToken / updateToken, simulated oracle / dogfood UpdateParams, simulated create-price); the other processes serve none"}
 		scenario := ""
 		if ci < len(directed) {
 			scenario = directed[ci]
@@ -924,7 +1082,7 @@ func runC08(a *Args) error {
 		}
 		w.CountN("blocks", blocks)
 		w.CountN("restarts-in-last-process", len(cs.Restart))
-		w.CountN("txs-simulated-and-checked-in-process-1", nLocal[ci])
+		w.CountN("node-local-requests-served-by-process-1", nLocal[ci])
 		w.CountN("processes", len(procs))
 		// first divergence, for humans
 		for bi := 0; bi < blocks && cs.Diverge == ""; bi++ {
